@@ -140,12 +140,7 @@ func (g *Gen) atStatements(anchor, when string, in ssa.CallInstruction, val ssa.
 			continue
 		}
 		g.atSeen[a] = true
-		vis := len(a.Props) == 0
-		for _, p := range a.Props {
-			if p == g.prop || g.prop == "" {
-				vis = true
-			}
-		}
+		vis := propVisible(a.Props, g.prop)
 		if !vis {
 			continue
 		}
@@ -175,12 +170,7 @@ func (g *Gen) entryAts() {
 			continue
 		}
 		g.atSeen[a] = true
-		vis := len(a.Props) == 0
-		for _, p := range a.Props {
-			if p == g.prop || g.prop == "" {
-				vis = true
-			}
-		}
+		vis := propVisible(a.Props, g.prop)
 		if !vis || a.Kind != "ghost" {
 			continue
 		}
@@ -308,12 +298,7 @@ func (g *Gen) applyCall(ce callee, c *ssa.CallCommon, val ssa.Value, pos token.P
 		if ce.fn != nil && inRepoFn(ce.fn) {
 			// inferred frame
 			g.inferred[ce.label] = true
-			for _, n := range g.frames.modsOf(ce.fn) {
-				g.ensureHeapSortByName(n)
-				if _, ok := g.heapSort[n]; ok {
-					g.havocHeap(n)
-				}
-			}
+			g.applyInferredFrame(ce.fn, args)
 		} else if ce.isInvoke || ce.fn == nil {
 			// unknown target: in-repo implementations may be reached
 			otherwise := guard
@@ -377,6 +362,58 @@ func inRepoFn(fn *ssa.Function) bool {
 		return inRepo(fn.Object().Pkg())
 	}
 	return false
+}
+
+// applyInferredFrame havocs what an in-repo callee without a declared frame may write, as precisely
+// as the frame analysis knows: a whole heap, the entries of the objects passed as parameters, and/or
+// the entries of objects allocated during the call.
+func (g *Gen) applyInferredFrame(fn *ssa.Function, args []TV) {
+	locs := g.frames.locsOf(fn)
+	var names []string
+	for n := range locs {
+		names = append(names, n)
+	}
+	sort.Strings(names)
+	allocPre := g.heap("alloc")
+	for _, n := range names {
+		ls := locs[n]
+		g.ensureHeapSortByName(n)
+		hs, ok := g.heapSort[n]
+		if !ok {
+			continue
+		}
+		var ps []int
+		for i := range ls.params {
+			ps = append(ps, i)
+		}
+		sort.Ints(ps)
+		precise := !ls.all && n != "alloc" && strings.HasPrefix(hs, "(Array Int ") && len(fn.Params) == len(args)
+		for _, i := range ps {
+			if i >= len(args) || args[i].S != SInt {
+				precise = false
+			}
+		}
+		if !precise {
+			g.havocHeap(n)
+			continue
+		}
+		old := g.heap(n)
+		if ls.fresh {
+			nv := g.havocHeap(n)
+			cond := []string{"(<= (atime r) " + allocPre + ")"}
+			for _, i := range ps {
+				cond = append(cond, not(eq("r", args[i].T)))
+			}
+			g.guard("(forall ((r Int)) (! (=> " + and(cond...) + " (= (select " + nv + " r) (select " + old + " r))) :pattern ((select " + nv + " r))))")
+			continue
+		}
+		inner := Sort(hs[len("(Array Int ") : len(hs)-1])
+		term := old
+		for _, i := range ps {
+			term = "(store " + term + " " + args[i].T + " " + g.fresh("frame."+n, inner) + ")"
+		}
+		g.assignHeap(n, term)
+	}
 }
 
 func (g *Gen) havocAlloc() {
@@ -519,7 +556,9 @@ func (g *Gen) applyContract(ctr *Contract, ce callee, c *ssa.CallCommon, args, r
 	g.callOrd[ctr.Key]++
 	ord := g.callOrd[ctr.Key]
 	// receiver of a method with pointer receiver must not be nil
-	if ce.fn != nil && ce.fn.Signature.Recv() != nil && len(c.Args) > 0 && !c.IsInvoke() {
+	// (in-repo callees only: what a function outside the repository does with a nil receiver is part of
+	// its assumed contract - a `requires` there - not of this generic check)
+	if ce.fn != nil && inRepoFn(ce.fn) && ce.fn.Signature.Recv() != nil && len(c.Args) > 0 && !c.IsInvoke() {
 		if _, isPtr := ce.fn.Signature.Recv().Type().Underlying().(*types.Pointer); isPtr {
 			g.nilCheck(g.objRef(c.Args[0]), c.Args[0], pos, "call")
 		}
@@ -548,12 +587,7 @@ func (g *Gen) applyContract(ctr *Contract, ce callee, c *ssa.CallCommon, args, r
 		}
 	} else {
 		g.inferred[ce.label] = true
-		for _, n := range g.frames.modsOf(ce.fn) {
-			g.ensureHeapSortByName(n)
-			if _, ok := g.heapSort[n]; ok {
-				g.havocHeap(n)
-			}
-		}
+		g.applyInferredFrame(ce.fn, args)
 	}
 	g.havocAlloc()
 	for _, r := range results {
@@ -662,7 +696,42 @@ func (g *Gen) resolveMod(m *Expr, env *Env) []modLoc {
 	panic(specErr(m, "unsupported modifies target"))
 }
 
+// modGuard: the objects a modifies target is reached through must exist - `a.b.f` names nothing when
+// a or a.b is nil (the fields of the nil object are not constrained in this encoding, so without the
+// guard `nil.b` would be an arbitrary object).
+func (g *Gen) modGuard(e *Expr, env *Env) []string {
+	var gs []string
+	var base *Expr
+	switch {
+	case e.Op == "sel" && !(e.Args[0].Op == "id" && (e.Args[0].Name == "any" || e.Args[0].Name == "world")):
+		base = e.Args[0]
+	case e.Op == "call" && (e.Name == "as" || e.Name == "elems" || e.Name == "entries" || e.Name == "cell") && len(e.Args) > 0:
+		if e.Name == "as" {
+			return g.modGuard(e.Args[0], env)
+		}
+		base = e.Args[0]
+	}
+	if base == nil {
+		return nil
+	}
+	gs = g.modGuard(base, env)
+	func() {
+		defer func() {
+			if r := recover(); r != nil {
+				if _, ok := r.(error); !ok {
+					panic(r)
+				}
+			}
+		}()
+		if b := g.trans(base, env); b.S == SInt {
+			gs = append(gs, not(eq(b.T, "0")))
+		}
+	}()
+	return gs
+}
+
 func (g *Gen) havocLoc(m *Expr, env *Env) {
+	guards := g.modGuard(m, env)
 	for _, l := range g.resolveMod(m, env) {
 		if l.ref == "" {
 			g.havocHeap(l.heap)
@@ -673,6 +742,9 @@ func (g *Gen) havocLoc(m *Expr, env *Env) {
 		// element sort of the heap array
 		inner := strings.TrimSuffix(strings.TrimPrefix(srt, "(Array Int "), ")")
 		fv := g.freshSig("havoc", "() "+inner)
+		if len(guards) > 0 {
+			fv = "(ite " + and(guards...) + " " + fv + " (select " + old + " " + l.ref + "))"
+		}
 		g.assignHeap(l.heap, "(store "+old+" "+l.ref+" "+fv+")")
 	}
 }
